@@ -27,7 +27,7 @@ def conc_part(ctx):
     conc.conc_sessions(ctx)
 
 
-Unit([("ids", gen_ids, 2), ("mixed", scen.gen_mixed, 1)], (oracles.o_c14, oracles.o_c04) + COMMON,
+Unit([("ids", gen_ids, 2), ("mixed", scen.gen_mixed, 1), ("stall", scen.gen_stall, 1)], (oracles.o_c14, oracles.o_c04) + COMMON,
      "id counter preset to {0,1,2^32-4..2^32-1} followed by 2-5 stream opens (and whole mixed sessions): every OPEN's local id is compared with the model "
      "and checked to be in [1,2^32-1] and unused by a live stream; concurrent part: real threads preempted inside _open. Non-trivial/distinct as for C01.",
      150, 3000, extra_run=conc_part).export(globals())
